@@ -357,6 +357,13 @@ def finish(ctx, level, coverage, assumptions):
     """Decide, write evidence, print lines, return exit code."""
     out_lines = []
     nviol = 0
+    # replay files of an earlier run with the same property / tier / seed would be mistaken for this run's
+    import glob as _glob
+    for old in _glob.glob(os.path.join(VERIF, "replays", "%s-%s-%d-*.json" % (ctx.prop, ctx.tier, ctx.seed))):
+        try:
+            os.remove(old)
+        except OSError:
+            pass
     for i, v in enumerate(ctx.violations[:5]):
         path = write_replay(ctx, i, v)
         out_lines.append("VIOLATION property=%s replay=%s" % (ctx.prop, path))
